@@ -45,23 +45,64 @@ theorem assemble_unaligned (cfg : Config) (u u' : List Nat) (outs : List ChrOut)
   intro h
   simp [assemble, h]
 
-/-- **restart_is_second_half**: whatever the saving run computed from the files it wrote (in both memory modes it
-    computes its outputs from them), a run restarted from these files computes again, except that it knows nothing
-    about unaligned reads: same loaded `_info`, same per-chromosome records and tables, same merged tables and TPM up to
-    the `__not_aligned` line; everything is equal when the saving run saw no unaligned read. -/
+/-- the second half looks at the unaligned reads only through their total -/
+theorem processSaved_unaligned (E : Env) (cfg : Config) (u u' : List Nat) (names : List String) (files : Saved)
+    (h : countUnaligned u = countUnaligned u') :
+    processSaved E cfg u names files = processSaved E cfg u' names files := by
+  unfold processSaved
+  cases readSaveInfo.run files.info with
+  | none => rfl
+  | some ir =>
+    cases (names.zip files.chrs).zipIdx.mapM (fun x => constructChr E cfg x.2 x.1.1 x.1.2) with
+    | none => rfl
+    | some outs => simp only [(assemble_unaligned cfg u u' outs).2 h]
+
+/-- on the `_info` file written by the modelled `collect_reads` the restart finds the number of unaligned reads the
+    saving run had counted (fix cc73ffc), so it is the second half run with that number -/
+theorem restartRun_on_saved (E : Env) (cfg : Config) (hm : Bool) (readGroups : List String) (ua : Nat)
+    (chroms : List ChrIn) (files : Saved) (names : List String)
+    (hsave : collectReads E hm readGroups ua chroms = some files) (u : List Nat) (hu : countUnaligned u = ua) :
+    restartRun E cfg names files = processSaved E cfg u names files := by
+  obtain ⟨saves, d, resolved, mms, info, _, _, _, _, _, hi, rfl⟩ := collectReads_unpack hsave
+  unfold restartRun
+  simp only
+  rw [info_file_unaligned _ _ info hi]
+  simp only [Int.toNat_natCast]
+  exact processSaved_unaligned E cfg [ua] u names _ (by rw [hu]; simp [countUnaligned])
+
+/-- **restart_is_second_half** (after fix cc73ffc, full strength): whatever the saving run computed from the files it
+    wrote (in both memory modes it computes its outputs from them), a run restarted from these files computes again –
+    the loaded `_info`, the per-chromosome records and tables, the merged tables, TPM and the `__not_aligned` line. -/
 theorem restart_is_second_half (E : Env) (cfg : Config) (readGroups : List String) (unmapped : List Nat)
     (chroms : List ChrIn) (files : Saved) (o : RunOut)
     (h : savingRun E cfg readGroups unmapped chroms = some (files, o)) :
-    ∃ o', restartRun E cfg (chroms.map (·.name)) files = some o' ∧ o'.info = o.info ∧ o'.out.chrs = o.out.chrs ∧
-      forgetNotAligned o'.out = forgetNotAligned o.out ∧ (countUnaligned unmapped = 0 → o' = o) := by
+    restartRun E cfg (chroms.map (·.name)) files = some o := by
   unfold savingRun at h
-  cases hc : collectReads E cfg.highMemory readGroups chroms with
+  cases hc : collectReads E cfg.highMemory readGroups (countUnaligned unmapped) chroms with
   | none => rw [hc] at h; cases h
   | some files' =>
     rw [hc] at h
     simp only [Option.map_eq_some_iff, Prod.mk.injEq] at h
     obtain ⟨o0, ho0, rfl, rfl⟩ := h
-    unfold restartRun
+    rw [restartRun_on_saved E cfg cfg.highMemory readGroups _ chroms files' _ hc unmapped rfl]
+    exact ho0
+
+/-- the restart BEFORE fix cc73ffc (`restartRunOrig`) knew nothing about unaligned reads: same loaded `_info`, same
+    per-chromosome records and tables, same merged tables and TPM up to the `__not_aligned` line; everything equal only
+    when the saving run saw no unaligned read (`restart_not_aligned_witness`) -/
+theorem restart_orig_is_second_half (E : Env) (cfg : Config) (readGroups : List String) (unmapped : List Nat)
+    (chroms : List ChrIn) (files : Saved) (o : RunOut)
+    (h : savingRun E cfg readGroups unmapped chroms = some (files, o)) :
+    ∃ o', restartRunOrig E cfg (chroms.map (·.name)) files = some o' ∧ o'.info = o.info ∧ o'.out.chrs = o.out.chrs ∧
+      forgetNotAligned o'.out = forgetNotAligned o.out ∧ (countUnaligned unmapped = 0 → o' = o) := by
+  unfold savingRun at h
+  cases hc : collectReads E cfg.highMemory readGroups (countUnaligned unmapped) chroms with
+  | none => rw [hc] at h; cases h
+  | some files' =>
+    rw [hc] at h
+    simp only [Option.map_eq_some_iff, Prod.mk.injEq] at h
+    obtain ⟨o0, ho0, rfl, rfl⟩ := h
+    unfold restartRunOrig
     unfold processSaved at ho0 ⊢
     cases hi : readSaveInfo.run files'.info with
     | none => rw [hi] at ho0; cases ho0
@@ -77,6 +118,15 @@ theorem restart_is_second_half (E : Env) (cfg : Config) (readGroups : List Strin
         intro hz
         have := (assemble_unaligned cfg [] unmapped outs).2 (by rw [hz]; rfl)
         simp only [this]
+
+/-- a save folder written before fix cc73ffc (`_info` = the three fields only) is still accepted: the restart reads 0
+    unaligned reads at the end of the file and behaves as it did before the fix -/
+theorem restart_on_old_info_file (E : Env) (cfg : Config) (names : List String) (files : Saved) (i : SaveInfo)
+    (hold : writeSaveInfo i = some files.info) :
+    restartRun E cfg names files = restartRunOrig E cfg names files := by
+  unfold restartRun restartRunOrig
+  rw [old_info_file_unaligned i files.info hold]
+  exact processSaved_unaligned E cfg _ _ names files rfl
 
 /-! ## 2. `downstream` of C12 on records that carry their own ids -/
 
@@ -125,8 +175,8 @@ theorem keyedOf_stream (E : Env) (chroms : List ChrIn) :
     records as the dumps hold them (`streamOf`, both memory modes); the restart loads the `_info` record the saving run
     computed; every chromosome's verdict file gives back `verdictsFor`, every dump the truncated records -/
 theorem processSaved_spec (E : Env) (cfg : Config) (readGroups : List String) (chroms : List ChrIn)
-    (files : Saved) (u : List Nat) (hE : InternOk E chroms)
-    (hsave : collectReads E cfg.highMemory readGroups chroms = some files)
+    (files : Saved) (u : List Nat) (ua : Nat) (hE : InternOk E chroms)
+    (hsave : collectReads E cfg.highMemory readGroups ua chroms = some files)
     (hdom : InDomain chroms) (hpen : MemoryModeOk cfg.highMemory chroms)
     (hlen : (streamOf E chroms).length < ser_TERMINATION_INT) :
     ∃ resolved, resolveStream cfg.highMemory (streamOf E chroms) = some resolved ∧
@@ -148,7 +198,7 @@ theorem processSaved_spec (E : Env) (cfg : Config) (readGroups : List String) (c
   have hrec : ∀ kv ∈ resolved, kv.2.length < ser_TERMINATION_INT ∧ ∀ r ∈ kv.2, r.readId = kv.1 ∧ IdsClosed E r :=
     fun kv hkv => ⟨Nat.lt_of_le_of_lt (hfacts kv hkv).1 hlen, (hfacts kv hkv).2⟩
   -- `_info`
-  have hinfo := save_info_decode_encode _ info [] hi
+  obtain ⟨_, ub, _, _, _, hinfo⟩ := info_file_head _ _ info [] hi
   rw [List.append_nil] at hinfo
   -- chromosome by chromosome
   obtain ⟨hsaves, hsall⟩ := mapM_eq_some_map _ ([] : Bytes) chroms saves hs
@@ -177,12 +227,12 @@ theorem processSaved_spec (E : Env) (cfg : Config) (readGroups : List String) (c
     TPM – computes exactly what `downstream` computes from the records the saving run holds after its own write
     (`quantGroups`: penalties truncated), for every number of unaligned reads it is told. -/
 theorem files_reproduce_records (E : Env) (cfg : Config) (readGroups : List String) (chroms : List ChrIn)
-    (files : Saved) (u : List Nat) (hE : InternOk E chroms)
-    (hsave : collectReads E cfg.highMemory readGroups chroms = some files)
+    (files : Saved) (u : List Nat) (ua : Nat) (hE : InternOk E chroms)
+    (hsave : collectReads E cfg.highMemory readGroups ua chroms = some files)
     (hdom : InDomain chroms) (hpen : MemoryModeOk cfg.highMemory chroms)
     (hlen : (streamOf E chroms).length < ser_TERMINATION_INT) :
     (processSaved E cfg u (chroms.map (·.name)) files).map (·.out) = downstreamKeyed cfg u (keyedOf E chroms) := by
-  obtain ⟨resolved, hres, hp⟩ := processSaved_spec E cfg readGroups chroms files u hE hsave hdom hpen hlen
+  obtain ⟨resolved, hres, hp⟩ := processSaved_spec E cfg readGroups chroms files u ua hE hsave hdom hpen hlen
   unfold downstreamKeyed
   rw [keyedOf_stream, hres, hp]
   simp only
@@ -192,16 +242,16 @@ theorem files_reproduce_records (E : Env) (cfg : Config) (readGroups : List Stri
     the saving run computed from its resolver's output (they decide the polyA requirements of model construction and
     the columns of the grouped tables – both outside `downstream`) -/
 theorem restart_reads_saved_info (E : Env) (cfg : Config) (readGroups : List String) (chroms : List ChrIn)
-    (files : Saved) (hE : InternOk E chroms)
-    (hsave : collectReads E cfg.highMemory readGroups chroms = some files)
+    (files : Saved) (ua : Nat) (hE : InternOk E chroms)
+    (hsave : collectReads E cfg.highMemory readGroups ua chroms = some files)
     (hdom : InDomain chroms) (hpen : MemoryModeOk cfg.highMemory chroms)
     (hlen : (streamOf E chroms).length < ser_TERMINATION_INT) (o : RunOut)
     (ho : restartRun E cfg (chroms.map (·.name)) files = some o) :
     ∃ resolved, resolveStream cfg.highMemory (streamOf E chroms) = some resolved ∧
       o.info = infoOf readGroups (listsOf cfg.highMemory (streamOf E chroms)) resolved ∧
       o.info.readGroups = readGroups := by
-  obtain ⟨resolved, hres, hp⟩ := processSaved_spec E cfg readGroups chroms files [] hE hsave hdom hpen hlen
-  unfold restartRun at ho
+  obtain ⟨resolved, hres, hp⟩ := processSaved_spec E cfg readGroups chroms files [ua] ua hE hsave hdom hpen hlen
+  rw [restartRun_on_saved E cfg cfg.highMemory readGroups ua chroms files _ hsave [ua] (by simp [countUnaligned])] at ho
   rw [hp] at ho
   simp only [Option.map_eq_some_iff] at ho
   obtain ⟨outs, _, rfl⟩ := ho
@@ -252,21 +302,21 @@ theorem keyedOf_eq_stamped (E : Env) (chroms : List ChrIn) (h : ChrStamped E chr
     the restart is given the same `Env.derive` (gene database), `Config` and reference (chromosome names). -/
 theorem reuse_reproduces_outputs (E : Env) (cfg : Config) (readGroups : List String) (unmapped : List Nat)
     (chroms : List ChrIn) (files : Saved) (hE : InternOk E chroms)
-    (hsave : collectReads E cfg.highMemory readGroups chroms = some files)
+    (hsave : collectReads E cfg.highMemory readGroups (countUnaligned unmapped) chroms = some files)
     (hdom : InDomain chroms) (hpen : MemoryModeOk cfg.highMemory chroms)
     (hlen : (streamOf E chroms).length < ser_TERMINATION_INT) (hst : ChrStamped E chroms) :
     (restartRun E cfg (chroms.map (·.name)) files).map (·.out) =
-      downstream cfg (aidTable (heldRecords E chroms)) [] (heldRecords E chroms) ∧
+      downstream cfg (aidTable (heldRecords E chroms)) unmapped (heldRecords E chroms) ∧
     (savingRun E cfg readGroups unmapped chroms).map (fun x => x.2.out) =
       downstream cfg (aidTable (heldRecords E chroms)) unmapped (heldRecords E chroms) := by
   constructor
-  · unfold restartRun
-    rw [files_reproduce_records E cfg readGroups chroms files [] hE hsave hdom hpen hlen, downstream_eq_keyed,
+  · rw [restartRun_on_saved E cfg cfg.highMemory readGroups _ chroms files _ hsave unmapped rfl,
+      files_reproduce_records E cfg readGroups chroms files unmapped _ hE hsave hdom hpen hlen, downstream_eq_keyed,
       keyedOf_eq_stamped E chroms hst]
   · unfold savingRun
     rw [hsave]
     simp only [Option.map_map, Function.comp_def]
-    rw [files_reproduce_records E cfg readGroups chroms files unmapped hE hsave hdom hpen hlen, downstream_eq_keyed,
+    rw [files_reproduce_records E cfg readGroups chroms files unmapped _ hE hsave hdom hpen hlen, downstream_eq_keyed,
       keyedOf_eq_stamped E chroms hst]
 
 /-! ## 5. the memory modes of the saving run -/
@@ -274,9 +324,10 @@ theorem reuse_reproduces_outputs (E : Env) (cfg : Config) (readGroups : List Str
 /-- **memory_modes_same_files**: on the representable domain with non-negative first penalties, the saving run writes
     the same dumps and the same multimapper files with and without `--high_memory` – although one resolver works from
     the unquantised objects in memory and the other from the abridged re-read of the dumps -/
-theorem memory_modes_same_files (E : Env) (readGroups : List String) (chroms : List ChrIn) (filesT filesF : Saved)
-    (hT : collectReads E true readGroups chroms = some filesT)
-    (hF : collectReads E false readGroups chroms = some filesF)
+theorem memory_modes_same_files (E : Env) (readGroups : List String) (ua : Nat) (chroms : List ChrIn)
+    (filesT filesF : Saved)
+    (hT : collectReads E true readGroups ua chroms = some filesT)
+    (hF : collectReads E false readGroups ua chroms = some filesF)
     (hdom : InDomain chroms) (hpen : MemoryModeOk true chroms) : filesT.chrs = filesF.chrs := by
   obtain ⟨savesT, dT, resT, mmsT, infoT, hsT, hdT, hrT, _, hmT, _, rfl⟩ := collectReads_unpack hT
   obtain ⟨savesF, dF, resF, mmsF, infoF, hsF, hdF, hrF, _, hmF, _, rfl⟩ := collectReads_unpack hF
@@ -300,13 +351,13 @@ def NoSuspendedInput (chroms : List ChrIn) : Prop :=
 /-- **memory_modes_same_saved_files**: if moreover no input record is `suspended`, ALL saved files are equal in the two
     memory modes, the `_info` totals included (`--high_memory` counts the reads seen once inside
     `resolve_multimappers`, the default mode in `prepare_multimapper_dict`): a restart cannot tell which mode saved -/
-theorem memory_modes_same_saved_files (E : Env) (readGroups : List String) (chroms : List ChrIn)
+theorem memory_modes_same_saved_files (E : Env) (readGroups : List String) (ua : Nat) (chroms : List ChrIn)
     (filesT filesF : Saved)
-    (hT : collectReads E true readGroups chroms = some filesT)
-    (hF : collectReads E false readGroups chroms = some filesF)
+    (hT : collectReads E true readGroups ua chroms = some filesT)
+    (hF : collectReads E false readGroups ua chroms = some filesF)
     (hdom : InDomain chroms) (hpen : MemoryModeOk true chroms) (hNS : NoSuspendedInput chroms) :
     filesT = filesF := by
-  have hchrs := memory_modes_same_files E readGroups chroms filesT filesF hT hF hdom hpen
+  have hchrs := memory_modes_same_files E readGroups ua chroms filesT filesF hT hF hdom hpen
   obtain ⟨savesT, dT, resT, mmsT, infoT, hsT, hdT, hrT, _, _, hiT, rfl⟩ := collectReads_unpack hT
   obtain ⟨savesF, dF, resF, mmsF, infoF, hsF, hdF, hrF, _, _, hiF, rfl⟩ := collectReads_unpack hF
   have hd1 := perReadLists_spec E true chroms savesT dT hsT hdom hpen hdT
@@ -394,8 +445,8 @@ theorem mkRA_dom (aid : Int) (rid chr g t : String) (mm : Bool) (pen : Rat)
 -- the hypotheses of `reuse_reproduces_outputs` are met by the concrete experiment, in both memory modes ...
 example : InternOk exEnv exChroms ∧ InDomain exChroms ∧ MemoryModeOk true exChroms ∧ MemoryModeOk false exChroms ∧
     (streamOf exEnv exChroms).length < ser_TERMINATION_INT ∧ ChrStamped exEnv exChroms ∧
-    (collectReads exEnv true ["NA"] exChroms).isSome = true ∧
-    (collectReads exEnv false ["NA"] exChroms).isSome = true := by
+    (collectReads exEnv true ["NA"] 0 exChroms).isSome = true ∧
+    (collectReads exEnv false ["NA"] 0 exChroms).isSome = true := by
   have hI : InternOk exEnv exChroms := by
     show ∀ s ∈ allStrings exChroms, exEnv.name (exEnv.intern s) = s
     decide +kernel
@@ -460,27 +511,39 @@ example : NoSuspendedInput exChroms := by
     restart drops it, both memory modes write the same files, T1 and T2 count one read each, and the loaded `_info`
     says 2 assignments -/
 example :
-    ((collectReads exEnv false ["NA"] exChroms).bind (restartRun exEnv (exCfg false) ["c1", "c2"])).map (fun o =>
+    ((collectReads exEnv false ["NA"] 0 exChroms).bind (restartRun exEnv (exCfg false) ["c1", "c2"])).map (fun o =>
         (o.info.totalAssignments, o.info.polyaAssignments, o.info.readGroups)) = some (2, 0, ["NA"]) ∧
-    ((collectReads exEnv false ["NA"] exChroms).bind (restartRun exEnv (exCfg false) ["c1", "c2"])).map (fun o =>
+    ((collectReads exEnv false ["NA"] 0 exChroms).bind (restartRun exEnv (exCfg false) ["c1", "c2"])).map (fun o =>
         o.out.chrs.map (fun c => c.records.map (fun p => (p.basic.readId, p.basic.aid)))) = some [[(2, 1)], [(3, 3)]] ∧
-    ((collectReads exEnv false ["NA"] exChroms).bind (restartRun exEnv (exCfg false) ["c1", "c2"])).map (fun o =>
+    ((collectReads exEnv false ["NA"] 0 exChroms).bind (restartRun exEnv (exCfg false) ["c1", "c2"])).map (fun o =>
         (o.out.transcriptCounts.rows, o.out.geneCounts.rows, o.out.geneCounts.notAligned)) =
       some ([(6, 100), (7, 100)], [(4, 100), (5, 100)], 0) ∧
-    collectReads exEnv true ["NA"] exChroms = collectReads exEnv false ["NA"] exChroms ∧
-    ((collectReads exEnv false ["NA"] exChroms).bind (fun f => f.chrs[1]?.bind (fun c =>
+    collectReads exEnv true ["NA"] 0 exChroms = collectReads exEnv false ["NA"] 0 exChroms ∧
+    ((collectReads exEnv false ["NA"] 0 exChroms).bind (fun f => f.chrs[1]?.bind (fun c =>
         (loadVerdicts exEnv "c2" c.multimappers).map (fun d => d.map (fun kv => (kv.1, kv.2.map (fun r => (r.aid, r.atype)))))))) =
       some [(2, [(2, .suspended)])] := by
   refine ⟨by decide +kernel, by decide +kernel, by decide +kernel, by decide +kernel, by decide +kernel⟩
 
-/-- **restart_not_aligned_witness** (a FINDING, replayed on the real pipeline by the oracle): the saving run saw 5
-    unaligned reads and prints `__not_aligned 5`; the run restarted from its files prints `__not_aligned 0` – the number
-    is not in the saved files, and a restart has no BAM file to count it from.  Every other modelled output agrees. -/
-theorem restart_not_aligned_witness :
+/-- the concrete experiment with 5 unaligned reads (2 + 3 in two BAM files): the saving run prints `__not_aligned 5`
+    and so does the run restarted from its files (fix cc73ffc) -/
+example :
     (savingRun exEnv (exCfg false) ["NA"] [2, 3] exChroms).map (fun x =>
         (x.2.out.geneCounts.notAligned, x.2.out.transcriptCounts.notAligned)) = some (5, 5) ∧
     ((savingRun exEnv (exCfg false) ["NA"] [2, 3] exChroms).bind (fun x =>
         (restartRun exEnv (exCfg false) ["c1", "c2"] x.1).map (fun o =>
+          (o.out.geneCounts.notAligned, o.out.transcriptCounts.notAligned)))) = some (5, 5) := by
+  refine ⟨by decide +kernel, by decide +kernel⟩
+
+/-- **restart_not_aligned_witness** (the defect repaired by fix cc73ffc, replayed on the real pipeline by the oracle,
+    which now expects the repaired answer): the saving run saw 5 unaligned reads and prints `__not_aligned 5`; the
+    restart as it was BEFORE the fix (`restartRunOrig`) prints `__not_aligned 0` – the number was not in the saved files,
+    and a restart has no BAM file to count it from.  Every other modelled output agreed
+    (`restart_orig_is_second_half`). -/
+theorem restart_not_aligned_witness :
+    (savingRun exEnv (exCfg false) ["NA"] [2, 3] exChroms).map (fun x =>
+        (x.2.out.geneCounts.notAligned, x.2.out.transcriptCounts.notAligned)) = some (5, 5) ∧
+    ((savingRun exEnv (exCfg false) ["NA"] [2, 3] exChroms).bind (fun x =>
+        (restartRunOrig exEnv (exCfg false) ["c1", "c2"] x.1).map (fun o =>
           (o.out.geneCounts.notAligned, o.out.transcriptCounts.notAligned)))) = some (0, 0) := by
   refine ⟨by decide +kernel, by decide +kernel⟩
 
